@@ -9,12 +9,12 @@ from props import index_common as ic
 MODULES = ['FeVerif.Props.C09']
 
 
-def open_log(path):
+def open_log(path, max_bytes=None):
     """Open through MixedLogReader (default save_index=True): ('ok', [offsets]) or ('raise', kind)."""
     from fusion_engine_client.parsers import MixedLogReader
     try:
         r = MixedLogReader(path, num_threads=1, return_header=False, return_payload=False, return_offset=True,
-                           return_message_index=True)
+                           return_message_index=True, max_bytes=max_bytes)
         seq = [(int(x[0]), int(x[1])) for x in r]
         r.input_file.close()
         return ('ok', seq)
@@ -50,8 +50,8 @@ def variants(rng, d, thorough):
     return v
 
 
-def one_log(ctx, d, kinds, lines, pending, msg_boundaries=True):
-    path = ic.write_log(d)
+def one_log(ctx, d, kinds, lines, pending, msg_boundaries=True, name='t.p1log'):
+    path = ic.write_log(d, name)
     p1i = os.path.splitext(path)[0] + '.p1i'
     res = ic.run_indexer(path, 1, save_index=True)
     if res[0] == 'raise':
@@ -72,13 +72,15 @@ def one_log(ctx, d, kinds, lines, pending, msg_boundaries=True):
         for e in ends[-3:]:
             vs.append(('truncate@end%d' % e, d[:e]))
     ks = range(len(B) + 1)
-    for name, d2 in vs:
+    for vname, d2 in vs:
+        name = vname
         for k in (ks if name in ('same',) or name.startswith('truncate@end') or ctx.thorough else [k for k in ks if k % 14 in (0, 1, 13)]):
             with open(path, 'wb') as f:
                 f.write(d2)
             with open(p1i, 'wb') as f:
                 f.write(B[:k])
-            replay = {'file': d.hex(), 'tokens': kinds, 'p1i': B.hex(), 'truncate_p1i_to': k, 'data_variant': name, 'data': d2.hex()}
+            replay = {'file': d.hex(), 'tokens': kinds, 'p1i': B.hex(), 'truncate_p1i_to': k, 'data_variant': name, 'data': d2.hex(),
+                      'file_name': os.path.basename(path)}
             # 1. correspondence of load()
             got = load_index(p1i, path)
             lines.append('p1iload %s %s' % (B[:k].hex() or '-', d2.hex() or '-'))
@@ -102,13 +104,20 @@ def scan_ends(d, offs):
 def histories(ctx, n, lines, pending):
     """Histories of {open (index), append message/junk, truncate data, truncate index}: every open must give the fresh scan."""
     rng = ctx.rng
-    for _ in range(n):
-        d, kinds = gen.small_file(rng, rng.choice([2, 4, 6]), 64, 'VVUWCJ', pad=rng.choice([0, 5]))
-        path = ic.write_log(d)
+    for hi in range(n):
+        d, kinds = gen.small_file(rng, rng.choice([2, 4, 6, 9]), 64, 'VVUWCJ', pad=rng.choice([0, 5]))
+        # small block constants so that a byte-limited open really indexes only part of the file
+        ic.rebind(*((64, 64) if hi % 2 == 0 else (80 * 1024, 16 * 1024)))
+        path = ic.write_log(d, rng.choice(['t.p1log', 'capture.raw', 'input.bin']))
         p1i = os.path.splitext(path)[0] + '.p1i'
         hist = []
         for step in range(rng.choice([3, 4, 5])):
-            op = rng.choice(['open', 'open', 'append-msg', 'append-junk', 'truncate-data', 'truncate-data-at-message', 'truncate-index'])
+            op = rng.choice(['open', 'open', 'open-max-bytes', 'append-msg', 'append-junk', 'truncate-data', 'truncate-data-at-message',
+                             'truncate-index'])
+            if step == 0 and hi % 3 == 0:
+                op = 'open-max-bytes'       # a byte-limited open of a log that has no index yet ...
+            elif step == 1 and hi % 3 == 0:
+                op = 'open'                 # ... followed by a normal open
             cur = open(path, 'rb').read()
             if op == 'append-msg':
                 cur = cur + gen.file_token(rng, 'U', {'n': 9}, 64)
@@ -128,6 +137,12 @@ def histories(ctx, n, lines, pending):
             with open(path, 'wb') as f:
                 f.write(cur)
             hist.append(op)
+            if op == 'open-max-bytes':
+                mb = rng.choice([1, 30, len(cur) // 3, len(cur) // 2, max(1, len(cur) - 1)]) if cur else 1
+                hist[-1] = 'open-max-bytes=%d' % mb
+                r = open_log(path, max_bytes=mb)     # its own result is C10's business; here it must not poison the saved index
+                if r[0] == 'raise':
+                    pending.append(('open', {'initial_file': d.hex(), 'history': list(hist), 'data': cur.hex()}, r, cur))
             if op == 'open':
                 r = open_log(path)
                 pending.append(('open', {'initial_file': d.hex(), 'history': list(hist), 'data': cur.hex()}, r, cur))
@@ -135,6 +150,7 @@ def histories(ctx, n, lines, pending):
         for f in (path, p1i):
             if os.path.exists(f):
                 os.remove(f)
+    ic.rebind(80 * 1024, 16 * 1024)
 
 
 def run(ctx, budget):
@@ -144,12 +160,12 @@ def run(ctx, budget):
         d, kinds = gen.small_file(rng, rng.choice([1, 2, 3, 5]), 64, 'VVUUWCTSJ', pad=rng.choice([0, 5]))
         one_log(ctx, d, kinds, lines, pending)
     # message-only logs (no junk after the last message: the marker-less fallback can accept)
-    for _ in range(budget):
+    for i in range(budget):
         d, kinds = gen.small_file(rng, rng.choice([1, 2, 4]), 64, 'VU')
-        one_log(ctx, d, kinds, lines, pending)
+        one_log(ctx, d, kinds, lines, pending, name=['t.p1log', 'capture.raw', 'mixed.bin'][i % 3])
     one_log(ctx, b'', 'empty', lines, pending)
     one_log(ctx, b'\x01\x02\x03', 'junk', lines, pending)
-    histories(ctx, budget * 6, lines, pending)
+    histories(ctx, budget * 20, lines, pending)
     outs = ctx.driver(lines)
     opens = [p for p in pending if p[0] == 'open']
     fresh = scan_oracle(ctx, [p[3] for p in opens])
